@@ -23,7 +23,9 @@ import (
 var c17Amounts = []string{"0", "0.00000001", "0.4", "0.5", "0.05", "0.005", "0.0005", "0.4995", "499.5", "500", "999.5", "999.95", "999.995", "1000", "999999.5",
 	"1234567.891", "1000000000000000", "12.345", "2.5", "1.5",
 	// coefficients beyond int64 / float64 precision at 8 decimals: 2^64+1 and 2^64 (truncate to 1 and 0), 1e15 + 1e-8
-	"184467440737.09551617", "184467440737.09551616", "1000000000000000.00000001"}
+	"184467440737.09551617", "184467440737.09551616", "1000000000000000.00000001",
+	// coefficients of exactly 64 bits at 8 decimals: 2^63, 2^64-1, 95e9
+	"92233720368.54775808", "184467440737.09551615", "95000000000.00000001"}
 
 func c17All() []string {
 	var res []string
